@@ -225,7 +225,7 @@ def run(ctx, anchors=None):
             n38 += 1
             ctx.site()
             gating = []
-            for (c_, t_) in fcfg.guards_of(n) | {(g_["id"], None) for g_ in (a_.get("cond") for a_ in f.ancestors(n) if a_.get("k") in ("if", "cond")) if g_ is not None}:
+            for (c_, t_) in fcfg.guards_of(n):      # CFG dominance only: in `tapscript || (v0 && (flags & F))` the flag test does not dominate
                 cn = f.node_by_id(c_)
                 if cn is None or not any(x["k"] in ("ref", "mem") and x.get("n") == "flags" for x in walk(cn)):
                     continue
